@@ -94,7 +94,10 @@ def run_mat(shard, res):
             x = nmv(alg, keys, [Fraction(3 + 2 * i, 1 + i % 3) * (-1) ** i for i in range(n)])
             y = nmv(alg, tuple(reversed(keys)), [Fraction(1 + i, 2 + i % 2) for i in range(n)])
             z = nmv(alg, keys[1:3], [Fraction(5, 2), Fraction(-1, 3)][:len(keys[1:3])])
-            for p, q in ((x, y), (y, z), (z, x)):
+            # plain python ints well above 127 (a narrow integer dtype of the basis matrices would wrap around)
+            xi = nmv(alg, keys, [100 + 7 * i for i in range(n)])
+            yi = nmv(alg, tuple(reversed(keys)), [-90 - 11 * i for i in range(n)])
+            for p, q in ((x, y), (y, z), (z, x), (xi, yi), (yi, xi)):
                 res.evals += 2
                 res.nontrivial += 1
                 try:
@@ -133,7 +136,8 @@ def run_expr(shard, res):
         G = [g for g in G if g]
     rkind = shard['rkind']
     case = {'shard': shard}
-    for i, kr in enumerate(G):
+    Gr = G + [tuple(reversed(g)) for g in G if len(g) >= 2][:3]       # the other input also in non-canonical key order
+    for i, kr in enumerate(Gr):
         for j, kx in enumerate(G):
             x = alg.multivector(name='x', keys=kx)
             rvals = [Fraction(2 + ((3 * t + i) % 5), 1 + (t % 2)) * (-1 if t % 3 == 1 else 1) for t in range(len(kr))]
